@@ -454,6 +454,12 @@ class Walk:
             self.nuser += 1
 
     def user_disconnect(self):
+        # the clients hand a DISCONNECT to the engine only while the MQTT connection is established (`is_connection_established`)
+        # and only once per connection (a second stop request finds the engine in PendingDisconnect and carries no packet);
+        # other placements are not driver-producible and are left to the bounded-exhaustive correspondence runs
+        if not self.broker.connack_sent or self.errored or getattr(self, "disc_conn", None) == self.conn_index:
+            return self.service()
+        self.disc_conn = self.conn_index
         rc = self.rng.choice([0, 0, 4, 128])
         self.send(f"eng.disc t={self.t} | disconnect rc={rc}", kind="user-disconnect")
 
